@@ -494,6 +494,12 @@ pub(crate) fn remove_smallest_matching_prefix<'a>(
 ) -> Result<&'a str, error::Error> {
     if let Some(pattern) = pattern {
         let re = pattern.to_regex(true, true)?;
+
+        // The empty prefix is the smallest candidate of all.
+        if re.is_match("")? {
+            return Ok(s);
+        }
+
         let mut indices = s.char_indices();
 
         #[allow(
@@ -549,6 +555,12 @@ pub(crate) fn remove_smallest_matching_suffix<'a>(
 ) -> Result<&'a str, error::Error> {
     if let Some(pattern) = pattern {
         let re = pattern.to_regex(true, true)?;
+
+        // The empty suffix is the smallest candidate of all.
+        if re.is_match("")? {
+            return Ok(s);
+        }
+
         #[allow(
             clippy::string_slice,
             reason = "because we get the indices from char_indices()"
